@@ -110,17 +110,17 @@ def r2(run, ctx):
     for u in upd:
         if isinstance(u.ast, ast.Assign) and isinstance(u.ast.targets[0], ast.Subscript):
             k = astq.const_value(u.ast.targets[0].slice)
-            run.check('R2', k == 'numprocesses' and 'new_watcher_cfg' in norm_text(u.ast.value),
+            run.check('R2', k == 'numprocesses' and "['numprocesses']" in norm_text(u.ast.value),
                       'the baseline takes the value from the new file', f, u.ast)
     # set_numprocesses is awaited and takes the new file's value
     for s in ctx.sites_calling(f, [W + 'set_numprocesses']):
         run.check('R2', astq.call_is_yielded(s.node, s.call) and
-                  "new_watcher_cfg['numprocesses']" in norm_text(s.call),
+                  astq.has_pattern(s.call, "$n['numprocesses']"),
                   'the new target comes from the new file and is awaited', f, s.node.ast)
     # delete+add replaces the watcher object (fresh _cfg)
     lf = ctx.fn(W + 'load_from_config')
-    run.check('R2', 'w._cfg = cfg' in norm_text(lf.node) and 'cfg = config.copy()' in
-              norm_text(lf.node), 'a (re)created watcher remembers the configuration it was '
+    run.check('R2', astq.has_pattern(lf.node, '$w._cfg = $c') and
+              astq.has_pattern(lf.node, '$c = $config.copy()'), 'a (re)created watcher remembers the configuration it was '
               'built from', lf, lf.node)
 
 
@@ -217,12 +217,12 @@ def r5(run, ctx):
     run.rule('R5', 'both sides of the comparison are normalised the same way')
     f = _f(ctx)
     txt = norm_text(f.node)
-    run.check('R5', "new_watcher_cfg['env'] = parse_env_dict(new_watcher_cfg['env'])" in txt,
+    run.check('R5', astq.has_pattern(txt, "$n['env'] = parse_env_dict($n['env'])"),
               "the new side's env goes through parse_env_dict", f, f.node)
     lf = ctx.fn(W + 'load_from_config')
     t2 = norm_text(lf.node)
-    run.check('R5', "config['env'] = parse_env_dict(config['env'])" in t2 and
-              t2.index("parse_env_dict") < t2.index('cfg = config.copy()'),
+    run.check('R5', astq.has_pattern(t2, "$c['env'] = parse_env_dict($c['env'])") and
+              '.copy()' in t2 and t2.index("parse_env_dict") < t2.index('.copy()'),
               "the remembered side's env went through parse_env_dict before it was stored", lf,
               lf.node, 'the baseline keeps the raw env while the new side is parsed: every '
               'reload sees a difference')
@@ -230,17 +230,18 @@ def r5(run, ctx):
              norm_text(n.iter) == '_ENV_EXCEPTIONS']
     if run.need('R5', loops, 'env-exception filter loop', f):
         body = ' '.join(norm_text(x) for x in loops[0].body)
-        run.check('R5', "del new_watcher_cfg['env'][key]" in body and
-                  "del old_watcher_cfg['env'][key]" in body,
+        dels = set(astq.pattern_regex("del $d['env'][$k]").findall(body))
+        run.check('R5', len(dels) >= 2,
                   'the env exceptions are dropped from both sides', f, loops[0])
-    run.check('R5', 'old_watcher_cfg = w._cfg.copy()' in txt, 'the baseline is compared through a '
+    run.check('R5', astq.has_pattern(txt, '$o = $w._cfg.copy()'), 'the baseline is compared through a '
               'copy (the filter does not damage it)', f, f.node)
     gc = ctx.fn('circus.config:get_config')
     t3 = norm_text(gc.node)
     run.check('R5', all(('%s.sort(key=name)' % x) in t3 for x in ('watchers', 'plugins', 'sockets')),
               'get_config returns name-sorted lists', gc, gc.node)
     gw = ctx.fn(A + 'get_watcher_config')
-    run.check('R5', "i['name'] == name" in norm_text(gw.node) and 'i.copy()' in norm_text(gw.node),
+    run.check('R5', astq.has_pattern(gw.node, "$i['name'] == name") and
+              astq.has_pattern(gw.node, 'return $i.copy()'),
               'the new side is a copy of the section with that name', gw, gw.node)
 
 
